@@ -629,3 +629,97 @@ Proof.
   pose proof (sim_script_ok fx c prefer sc (init c, [], []) eq_refl) as H.
   destruct (sim_script fx prefer (init c, [], []) sc) as [[st tr] ob]. exact H.
 Qed.
+
+(* ====================== round 2: no lost wake-up, unique ids from reachability ====================== *)
+
+Lemma reachable_u_reachable c st : reachable_u c st -> reachable c st.
+Proof. intros H. induction H; [constructor | now constructor]. Qed.
+
+Lemma reachable_u_uniq c st : reachable_u c st -> uniq st.
+Proof.
+  intros H. induction H as [|st now ev H IH Hwf Hf]; [constructor|].
+  apply uniq_step; assumption.
+Qed.
+
+(* "granted as soon as it fits", history level: in no reachable state is there a caller blocked in
+   cond.Wait() whose request fits (or exceeds the capacity): whenever the held amount or the capacity
+   went down, everybody was woken *)
+Definition no_fit (st : state) : Prop :=
+  forall x, In x (waiting st) -> fitsb (held st) (ww x) (cap st) = false /\ exceedsb (ww x) (cap st) = false.
+
+Lemma fitsb_mono h w c w' : fitsb h w c = false -> fitsb (mplus h w') w c = false.
+Proof. unfold fitsb, mplus. cbn. lia. Qed.
+
+Lemma no_fit_loop_body c st now x :
+  inv c st -> m_wf (ww x) -> no_fit st -> no_fit (fst (loop_body true st now x)).
+Proof.
+  intros Hinv Hw Hn. rewrite (loop_body_decide c) by assumption. unfold decide.
+  destruct (fitsb (held st) (ww x) (cap st)) eqn:Ef; cbn [fst].
+  - intros y Hy. cbn [held cap waiting] in *. destruct (Hn y Hy) as [H1 H2]. split; [now apply fitsb_mono | assumption].
+  - destruct (exceedsb (ww x) (cap st) || (wdl x <=? now)%Z) eqn:Ee; cbn [fst]; [exact Hn|].
+    intros y Hy. cbn [held cap waiting] in *. apply in_app_iff in Hy. destruct Hy as [Hy | [<- | []]]; [now apply Hn|].
+    apply orb_false_iff in Ee. tauto.
+Qed.
+
+Lemma no_fit_step c st now ev : inv c st -> ev_wf ev -> no_fit st -> no_fit (fst (step true st now ev)).
+Proof.
+  intros Hinv Hev Hn. destruct ev as [id w tcall timeout | w | w | | id | id]; cbn [step].
+  - apply (no_fit_loop_body c); assumption.
+  - pose proof (cap_wf _ _ Hinv) as Hcw. destruct Hinv as (Hc & Hle & _). cbn in Hev.
+    rewrite (try_acquire_exact _ _ _ (mle_wf _ _ Hc Hle) Hev Hcw).
+    destruct (fitsb (held st) w (cap st)); cbn [fst]; [|exact Hn].
+    intros y Hy. cbn [held cap waiting] in *. destruct (Hn y Hy). split; [now apply fitsb_mono | assumption].
+  - unfold release. destruct (mlt_any (held st) w); cbn [fst]; intros y [].
+  - cbn [fst]. intros y [].
+  - cbn [fst]. intros y [].
+  - destruct (take_waiter id (woken st)) as [[x rest]|] eqn:T; [|exact Hn].
+    destruct (take_waiter_some _ _ _ _ T) as (H1 & H2 & H3 & H4 & H5).
+    apply (no_fit_loop_body c).
+    + eapply inv_sub; [exact Hinv | reflexivity | reflexivity |].
+      intros z Hz. apply in_pending_app in Hz. cbn [waiting woken] in Hz. apply in_pending_app. destruct Hz; auto.
+    + destruct Hinv as (_ & _ & _ & Hwf & _). apply Hwf, in_pending_app; auto.
+    + exact Hn.
+Qed.
+
+Lemma sem_no_fitting_waiter c st x :
+  m_wf c -> reachable c st -> In x (waiting st) ->
+  fitsb (held st) (ww x) (cap st) = false /\ exceedsb (ww x) (cap st) = false.
+Proof.
+  intros Hc H. revert x. change (no_fit st). induction H as [|st now ev H IH Hwf]; [intros x []|].
+  apply (no_fit_step c); auto using reachable_inv.
+Qed.
+
+(* the wake-up theorem without the NoDup hypothesis *)
+Lemma sem_wake_u c st now x :
+  m_wf c -> reachable_u c st -> In x (woken st) ->
+  exists rest,
+    (forall y, In y rest <-> In y (woken st) /\ y <> x) /\
+    step true st now (EWake (wid x)) =
+    match decide (held st) (cap st) (ww x) (wdl x) now with
+    | DGrant => (mkS (mplus (held st) (ww x)) (cap st) (waiting st) rest, [ORet (wid x) true])
+    | DRefuse => (mkS (held st) (cap st) (waiting st) rest, [ORet (wid x) false])
+    | DBlock => (mkS (held st) (cap st) (waiting st ++ [x]) rest, [OBlock (wid x)])
+    end.
+Proof.
+  intros Hc H Hin. apply (sem_wake c); auto using reachable_u_reachable.
+  pose proof (reachable_u_uniq _ _ H) as Hu. unfold uniq, pending in Hu. rewrite map_app in Hu.
+  now apply nodup_app_r in Hu.
+Qed.
+
+(* "as soon as enough is released", the no-competitor case: a pending caller whose request fits after a
+   Release is granted the first time it runs, if nothing else happens in between *)
+Lemma sem_release_then_wake c st now now' w x :
+  m_wf c -> reachable_u c st -> m_wf w -> In x (pending st) ->
+  fits (held (fst (step true st now (ERelease w)))) (ww x) (cap st) ->
+  exists st', step true (fst (step true st now (ERelease w))) now' (EWake (wid x)) = (st', [ORet (wid x) true]).
+Proof.
+  intros Hc H Hw Hin Hfit.
+  assert (H1 : reachable_u c (fst (step true st now (ERelease w)))) by (apply reach_u_step; [assumption | exact Hw | exact I]).
+  pose proof (sem_release st now w) as Hr.
+  destruct (step true st now (ERelease w)) as [st1 o] eqn:E. cbn [fst] in *.
+  destruct Hr as (_ & Hwk & Hcap & _).
+  assert (Hin1 : In x (woken st1)).
+  { rewrite Hwk. apply in_pending_app in Hin. apply in_app_iff. tauto. }
+  destruct (sem_wake_u c st1 now' x Hc H1 Hin1) as (rest & _ & Es). rewrite Es.
+  unfold decide. rewrite Hcap. apply fitsb_spec in Hfit. rewrite Hfit. eauto.
+Qed.
